@@ -121,6 +121,25 @@ Proof.
 Qed.
 Print Assumptions c21_response_routing.
 
+(** Link to the implementation: when the correspondence check succeeds on a case, the responses
+    OBSERVED on the real component's Top port (o_ticks c), followed by what is still queued in
+    the model, answer the accepted requests in acceptance order with the original requester,
+    ID and kind — i.e. c21_in_order speaks about the implementation's own port traffic. *)
+From Akita Require Import C21.Exec C21.Link.
+Theorem c21_model_agreement_implies_property : forall c, check_case c = true ->
+  exists r pending,
+    fst (env_run (rob_init (c_size c) (c_width c) (c_tcap c) (c_bcap c)) (c_script c)) = r /\
+    map (fun a => (q_src (fst a), q_id (fst a), q_is_read (fst a))) (g_acc r) =
+    map rsp_meta (flat_map to_top (o_ticks c) ++ r_top_out r) ++ pending.
+Proof.
+  intros c H. pose proof (check_case_obs c H) as Hobs.
+  destruct (env_run (rob_init (c_size c) (c_width c) (c_tcap c) (c_bcap c)) (c_script c)) as [r obs] eqn:E.
+  cbn [snd] in Hobs. subst obs.
+  destruct (c21_in_order _ _ _ _ _ _ _ E) as [pending [Hp _]].
+  exists r, pending. split; [reflexivity|exact Hp].
+Qed.
+Print Assumptions c21_model_agreement_implies_property.
+
 (** Non-vacuity: four requests, answered youngest first; the responses come out oldest first,
     each with its own data. *)
 Definition demo_script : list instant :=
